@@ -28,7 +28,7 @@ LAZY_MARK = "\x00lazy-ref"  # by-identity marker of a nested lazy list inside a 
 OBS_LIMIT = 60
 
 COPY_OPS = [":", "D", "Ḃ", "→a", "←a", "→b", "←b", "£", "¥", "⅛", "¾", "W", "\"", "w", "?", "$", "Ȯ", "^", "_",
-            "λ2|_ _ n;†", "λ2|+ n;†", "λ2|$ _ n $ _;†", "λ3|_ _ _ n;†", "λ_ n;†", "λ› n $ _;†"]
+            "λ2|_ _ n;†", "λ2|+ n;†", "λ2|$ _ n $ _;†", "λ3|_ _ _ n;†", "λ_ n;†", "λ› n $ _;†", "□"]
 # the context value `n` of a lambda denotes the call's arguments whatever the body did to its stack meanwhile:
 # text -> (arity, "list" = n is the list of arguments, top first | "arg" = n is the single argument itself)
 CTX_OPS = {"λ2|_ _ n;†": (2, "list"), "λ2|+ n;†": (2, "list"), "λ2|$ _ n $ _;†": (2, "list"), "λ3|_ _ _ n;†": (3, "list"),
@@ -73,7 +73,8 @@ RELATED = [("5 2 τ", "5 N 2 τ"), ("6 K", "6 N K"), ("6 b", "6 N b"), ("3 ɾ", 
 EXCLUDED = {"Q", "¨U", "□", "¨…", "¢", "øV", "øo", "Ṅ", "øṖ"}
 FN_POOL = ["λ›;", "λ2*;", "λ₂;", "λ2|+;", "λ:;", "λd;", "λ1;", "λ2|$;", "λN;", "λh;"]
 STRUCT_ELEMS = ["@f:1| 0 9 Ȧ ; @f;", "@g:a| ←a Ṙ ; @g;", "@h:1| : J ; @h;", "( i | ←i 1 J _ )", "ƛ›;", "ƛd;", "'₂;", "'1;", "µN;", "v›", "vd", "ƒ+", "ɖ+", "⁽›M", "⁽₂F", "( n )", "( n ⅛ )",
-                "ƛ:Ṙ;", "ƛ0 9 Ȧ;", "ƛ1 J;", "λ2|+; Ḟ", "⁽› ẇ", "‡›d M", "ƛn;", "~₂", "₌Lh", "₍ht"]
+                "ƛ:Ṙ;", "ƛ0 9 Ȧ;", "ƛ1 J;", "λ2|+; Ḟ", "⁽› ẇ", "‡›d M", "ƛn;", "~₂", "₌Lh", "₍ht",
+                "@k:b| ←b L ; @k;", "@m:a| 3ɾ ƛ ←a + ; ; @m;", "2 ~c", "1 ~=", "~J", "0 ~i"]
 
 
 # well-typed applications of list-transforming elements (the top of the stack is the list): used by the "recipes"
@@ -83,6 +84,10 @@ RECIPES = ["1N 9 Ṁ", "2N 7 Ṁ", "⟨1|2|3|4⟩ $ λ›; ¨M", "⟨5|6|7⟩ $ 
            "ḣ", "ṫ", "f", "1 Ǔ", "1 ǔ", "2 ẇ", "2 Ẏ", "1 ȯ", "∩", "›", "d", "N", "1 +", "¦", "¯", "K", "ė", "z", ": Z", ": Y",
            "2 ẋ", "÷", "y", "0 i", "1 ⟇", "9 o", "ÞḊ", "Þf", "Ġ", "⇧", "⇩", "ÞU", "ṗ", "2 l", "Ċ", "∑", "G", "g", "h", "t", "L",
            "m", "øṁ", "Þ…" if False else "L", "λ›; M", "λ₂; F", "µN;", "ƒ+", "ɖ+", "v›", "Ḃ", "W", "ÞD" if False else "w"]
+# bodies of `ƛ…;` maps built by program text: the items are computed by transpiled code at the moment they are forced, so
+# what the list denotes must not depend on the interpreter state (flags set by a modifier, a lambda's scope, a loop's
+# context value) it happens to be forced under. Bodies pop without pushing, branch, and read n.
+VY_MAP_BODIES = [": 2 % [ 3 * | 2 / ]", ": _ ›", "_ n", ": : _ _", "1 [ d | N ]", "n 2 % [ _ 0 ]", "n + ‹ _ n", "$ _", ": 0 > [ _ 7 ]"]
 SHARE_OPS = [":", "D", "→a ←a", "→b ←b", "£ ¥", "⅛ ¾", ": ⅛", ": £", "→a ←a ←a", "$", "Ḃ"]
 
 
@@ -190,6 +195,10 @@ class C10(core.Check):
             val = [[rw.randint(0, 9), rw.randint(0, 9)] for _ in range(rw.randint(1, 4))]
         rep = rw.choice(["eager", "eager", "lazy_list", "lazy_gen", "lazy_map", "part"])
         nested_lazy = rw.random() < 0.25
+        rv = sub_rng(seed, self.id, run, "vymap")
+        vy_body = None
+        if rv.random() < 0.12:
+            rep, vy_body, nested_lazy = "vy_map", rv.choice(VY_MAP_BODIES), False
         place = sorted(set(rw.sample(["stack", "stack2", "a", "b", "reg", "ga", "input"], rw.randint(1, 3)) + ["stack"]))
         # swarm: element pool for this run
         pool_kind = rw.choice(["all", "all", "subset", "struct", "mutators", "recipes", "recipes"])
@@ -251,6 +260,8 @@ class C10(core.Check):
                         continue
                     e = rs.choice(pool or self.keys)
                     ar = self.table[e]
+                    if ar == 2 and rv.random() < (0.3 if vy_body else 0.06):
+                        e = "~" + e  # the dyad applied WITHOUT popping its arguments
                     lits = [self.gen_literal(rs) for _ in range(rs.randint(0, max(0, ar - 1)))]
                     # the value under test is not always the FIRST argument: swap / rotate it into the other positions
                     perm = ""
@@ -266,8 +277,22 @@ class C10(core.Check):
                 events.append(["close", rs.randint(0, 30)])
         # interpreter settings that change how elements treat their arguments (command-line flags r, R, M)
         ctxflags = rw.choice([[], [], [], [], ["r"], ["R"], ["M"], ["r", "R"]])
-        return dict(value=val, repr=rep, nested_lazy=nested_lazy, place=place, events=events,
+        case = dict(value=val, repr=rep, nested_lazy=nested_lazy, place=place, events=events,
                     final_order=rs.randint(0, 10 ** 6), ctxflags=ctxflags)
+        ri = sub_rng(seed, self.id, run, "stdin")
+        if ri.random() < 0.12:
+            # lines waiting on standard input (read by `?` and by implicit reads when no inputs were given): the list of
+            # all inputs (`□`) that a reference holds must not change when more input is read
+            case["stdin"] = [ri.choice(["5", "7", "12", "⟨1|2⟩", "`ab`", "0"]) for _ in range(ri.randint(1, 4))]
+            if "input" in place and ri.random() < 0.7:
+                case["place"] = [p_ for p_ in place if p_ != "input"]
+            for _ in range(ri.randint(1, 3)):
+                ops = ri.choice([["□"], ["□", "£"], ["□", "→a"], ["?"], ["?", "_"], ["□", "?"], ["+"], ["?", "?"]])
+                at = ri.randint(0, len(events))
+                events[at:at] = [["copy", o] if o != "+" else ["apply", ["+"]] for o in ops]
+        if vy_body:
+            case["vy_body"] = vy_body
+        return case
 
     # ------------------------------------------------------------------------------ building
     def build(self, v, top, rep, nested_lazy, pre=1):
@@ -303,7 +328,7 @@ class C10(core.Check):
     # ------------------------------------------------------------------------------ execution
     def run(self, case):
         LL = self.LazyList
-        w = world.World(inputs=[])
+        w = world.World(inputs=[], stdin=case.get("stdin"))
         ctx, ns = w.ctx, w.ns
         for f_ in case.get("ctxflags", []):
             if f_ == "r":
@@ -312,9 +337,41 @@ class C10(core.Check):
                 ctx.number_as_range = True
             elif f_ == "M":
                 ctx.range_start = 0
-        V = self.build(case["value"], True, case["repr"], case.get("nested_lazy", False))
-        model_V = self.norm(case["value"])
         log, cov, faults = [], set(), {}
+        if case["repr"] == "vy_map":
+            # the value under test is an UNFORCED map made by program text; what it denotes is what the same text gives
+            # when it is forced at once in a fresh interpreter with the same settings
+            text_ = "ƛ " + case.get("vy_body", ": _") + " ;"
+
+            def make(wx):
+                for f_ in case.get("ctxflags", []):
+                    if f_ == "r":
+                        wx.ctx.reverse_flag = True
+                    elif f_ == "R":
+                        wx.ctx.number_as_range = True
+                    elif f_ == "M":
+                        wx.ctx.range_start = 0
+                wx.stack.append(self.build(case["value"], True, "eager", False))
+                wx.run_code(wx.compile_program(text_))
+                return wx.stack.pop()
+            try:
+                world.CLOCK.start(budget=STEP_BUDGET)
+                try:
+                    with world.rec_limit():
+                        model_V = world.to_model(make(world.World(inputs=[])), LL, OBS_LIMIT)
+                        V = make(w)
+                finally:
+                    world.CLOCK.stop()
+                    world.STDIN.reset(case.get("stdin"))  # creating the twin interpreter reset the (global) stdin seam
+            except (world.StepBudgetExceeded, world.ValueTooBig):
+                return dict(verdict=DISCARD, sig="vy-map-build", log=log, steps=0, faults=faults, hist=None)
+            except Exception as e:
+                return dict(verdict=DISCARD, sig="vy-map-build:" + type(e).__name__, log=log, steps=0, faults=faults, hist=None)
+            if not isinstance(V, LL) or self.foreign(model_V):
+                return dict(verdict=DISCARD, sig="vy-map-build:not-lazy", log=log, steps=0, faults=faults, hist=None)
+        else:
+            V = self.build(case["value"], True, case["repr"], case.get("nested_lazy", False))
+            model_V = self.norm(case["value"])
         refs, by_id, classes = [], {}, {}
         steps = 0
         nclass = [0]
@@ -361,10 +418,41 @@ class C10(core.Check):
             elif isinstance(v, list) and depth < 4:
                 register(v, label, event_no)
 
+        var_code = {}
+
+        def var_get(name):
+            """what `←name` pushes, read by running that very program text on a scratch stack (where the implementation
+            keeps its variables is its own business)"""
+            if name not in var_code:
+                var_code[name] = w.compile_program("←" + name)
+            real, tmp = ns["stack"], []
+            ns["stack"] = tmp
+            try:
+                exec(var_code[name], ns)
+            except Exception:
+                return None
+            finally:
+                ns["stack"] = real
+            return tmp[-1] if tmp else None
+
+        def var_set(name, value):
+            real, tmp = ns["stack"], [value]
+            ns["stack"] = tmp
+            try:
+                exec(w.compile_program("→" + name), ns)
+            finally:
+                ns["stack"] = real
+
         def roots():
             for i, v in enumerate(w.stack):
                 yield f"stack[{i}]", v
-            for name in sorted(k for k in ns if k.startswith("VAR_")):
+            seen_ = set()
+            for name in ("a", "b"):
+                v = var_get(name)
+                if v is not None:
+                    seen_.add("VAR_" + name)
+                    yield "VAR_" + name, v
+            for name in sorted(k for k in ns if k.startswith("VAR_") and k not in seen_):
                 yield name, ns[name]
             yield "register", ctx.register
             yield "global_array", ctx.global_array
@@ -449,17 +537,18 @@ class C10(core.Check):
             elif p == "stack2":
                 w.stack.insert(0, V)
             elif p == "a":
-                ns["VAR_a"] = V
+                var_set("a", V)
             elif p == "b":
-                ns["VAR_b"] = V
+                var_set("b", V)
             elif p == "reg":
                 ctx.register = V
             elif p == "ga":
                 ctx.global_array.append(V)
             elif p == "input":
                 ctx.inputs[0][0].append(V)
-        ns.setdefault("VAR_a", 0)
-        ns.setdefault("VAR_b", 0)
+        for nm_ in ("a", "b"):
+            if nm_ not in place:
+                var_set(nm_, 0)
         if isinstance(V, (list, LL)):
             rV = register(V, "V", -1, cls_V)
             if not rV.lazy:
@@ -515,6 +604,8 @@ class C10(core.Check):
                 if kind == "copy":
                     if text == "¾":
                         expect_top = [snap(x) for x in ctx.global_array]
+                    elif text == "□":
+                        expect_top = [snap(x) for x in ctx.inputs[0][0]]
                     elif text == "W":
                         expect_top = [snap(x) for x in w.stack]
                     elif text == "\"" and len(w.stack) >= 2 and not ctx.reverse_flag:
@@ -529,6 +620,7 @@ class C10(core.Check):
                     code = w.compile_program(text)
                 except Exception as e:
                     return discard("compile:" + type(e).__name__)
+                bound_before = {nm_: var_get(nm_) for nm_ in ("a", "b")}
                 _, err = guarded(lambda: w.run_code(code))
                 log.append(dict(ev=kind, text=text, outcome=err or "ok", stack=len(w.stack)))
                 if err:
@@ -539,6 +631,22 @@ class C10(core.Check):
                         cov.add("el:" + t.split(" ")[-1])
                 else:
                     cov.add("copy:" + text)
+                # a variable is rebound only by an assignment to it: whatever else ran (a function with a parameter of
+                # that name, a loop, an element), `←a` still denotes what it denoted
+                for nm_ in ("a", "b"):
+                    if "→" + nm_ in text:
+                        continue
+                    was, now = bound_before[nm_], var_get(nm_)
+                    if was is now or isinstance(was, LL) or isinstance(now, LL):
+                        continue
+                    s_was, s_now = snap(was), snap(now)
+                    if s_was != s_now and not (self.foreign(s_was) or self.foreign(s_now)):
+                        sig = f"rebound:{text.split(' ')[-1]}:variable"
+                        log.append(dict(violation=sig, variable=nm_, got=s_now, want=s_was))
+                        return dict(verdict=VIOLATION, sig=sig,
+                                    detail=f"value={case['value']} repr={case['repr']} place={case['place']}: variable {nm_} was not "
+                                           f"assigned to by {text!r} but now reads {s_now}, was {s_was}",
+                                    log=log, steps=steps, cov=sorted(cov), faults=faults, hist=core.digest(case))
                 discover_all(eno)
                 # copy-op semantics: which new objects denote the same value as which old ones
                 if kind == "copy" and (text in (":", "D", "Ḃ") or (CTX_OPS.get(text, (0, ""))[1] == "arg"
@@ -687,6 +795,10 @@ class C10(core.Check):
             yield dict(case, nested_lazy=False)
         if case.get("ctxflags"):
             yield dict(case, ctxflags=[])
+        if case.get("stdin"):
+            yield {k: v for k, v in case.items() if k != "stdin"}
+            if len(case["stdin"]) > 1:
+                yield dict(case, stdin=case["stdin"][:-1])
         val = case["value"]
         for i in range(len(val)):
             if len(val) > 1:
